@@ -243,6 +243,7 @@ Proof.
   destruct (tprio t <? min_entrance c); [exact HI|].
   destruct ((max_txs c <=? length (all p))%nat && negb (is_nil (queue p)) && (tprio t <=? min_prio (queue p))); [exact HI|].
   destruct (is_invalid v); [exact HI|].
+  destruct (slot_rejects c t p); [exact HI|].
   destruct (if (max_txs c <=? length (all p))%nat then evict ch p else (p, None)) as [p1 ev] eqn:Epe.
   assert (Hp1 : PoolInv c p1 /\ (length (all p1) + 1 <= max_txs c)%nat /\ (forall u, In u (all p1) -> In u (all p))).
   { destruct (max_txs c <=? length (all p))%nat eqn:Efull.
@@ -458,6 +459,7 @@ Proof.
   destruct (tprio t <? min_entrance c); [simpl; discriminate|].
   destruct ((max_txs c <=? length (all p))%nat && negb (is_nil (queue p)) && (tprio t <=? min_prio (queue p))); [simpl; discriminate|].
   destruct (is_invalid v); [simpl; discriminate|].
+  destruct (slot_rejects c t p); [simpl; discriminate|].
   destruct (if (max_txs c <=? length (all p))%nat then evict ch p else (p, None)) as [p1 ev] eqn:Epe.
   assert (Hp1 : PoolInv c p1 /\ (forall u, In u (all p1) -> In u (all p))).
   { destruct (max_txs c <=? length (all p))%nat eqn:Efull.
@@ -532,6 +534,7 @@ Proof.
   destruct (tprio t <? min_entrance c); [exact HL|].
   destruct ((max_txs c <=? length (all p))%nat && negb (is_nil (queue p)) && (tprio t <=? min_prio (queue p))); [exact HL|].
   destruct (is_invalid v); [exact HL|].
+  destruct (slot_rejects c t p); [exact HL|].
   destruct (if (max_txs c <=? length (all p))%nat then evict ch p else (p, None)) as [p1 ev] eqn:Epe.
   assert (Hp1 : PoolInv c p1 /\ LowPool p1).
   { destruct (max_txs c <=? length (all p))%nat.
@@ -600,3 +603,40 @@ Qed.
 Theorem processables_are_lowest : forall c ops a L, cfg_ok c -> afind a (accts (run c ops)) = Some L ->
   forall n p, In n (nonces L) -> In p (procs L) -> n < p -> In n (procs L).
 Proof. intros c ops a L Hc HL. exact (run_low c ops Hc a L HL). Qed.
+
+
+(* ---------------- replacement, read off the STATES (not off the operation's own report) ---------------- *)
+Lemma same_slot_unique : forall c p a b, PoolInv c p -> In a (all p) -> In b (all p) ->
+  tsender a = tsender b -> tnonce a = tnonce b -> a = b.
+Proof.
+  intros c p a b HI Ha Hb Es En.
+  destruct (inv_all_in_list _ _ HI a Ha) as (L1 & HL1 & Hn1). destruct (inv_all_in_list _ _ HI b Hb) as (L2 & HL2 & Hn2).
+  rewrite Es in HL1. rewrite HL1 in HL2. inversion HL2; subst. rewrite En in Hn1. congruence.
+Qed.
+
+Lemma slot_rejects_noop : forall c t v pub ch p, slot_rejects c t p = true -> fst (pool_add c t v pub ch p) = p.
+Proof.
+  intros c t v pub ch p H. unfold pool_add.
+  destruct (existsb _ (all p)); auto. destruct (tprio t <? min_entrance c); auto.
+  destruct ((max_txs c <=? length (all p))%nat && negb (is_nil (queue p)) && (tprio t <=? min_prio (queue p))); auto.
+  destruct (is_invalid v); auto. rewrite H. auto.
+Qed.
+
+(* whenever a pooled transaction [old] and a newcomer [t] share sender and nonce and [t] is pooled after the Add, then
+   [t] pays at least old's fee plus the configured difference and [old] is gone - whichever path (replacement inside the
+   sender list, or capacity eviction of [old] followed by a fresh insertion) the Add took *)
+Theorem replacement_state_based : forall c t v pub ch p old, cfg_ok c -> PoolInv c p ->
+  In old (all p) -> tsender old = tsender t -> tnonce old = tnonce t -> tid old <> tid t ->
+  In t (all (fst (pool_add c t v pub ch p))) ->
+  tfee old + min_diff c <= tfee t /\ ~ In old (all (fst (pool_add c t v pub ch p))).
+Proof.
+  intros c t v pub ch p old Hc HI Hold Es En Hid Ht.
+  assert (Hne : old <> t) by (intros ->; congruence).
+  split.
+  - destruct (slot_rejects c t p) eqn:Esr.
+    + rewrite (slot_rejects_noop _ _ v pub ch _ Esr) in Ht. exfalso. apply Hne. eapply same_slot_unique; eauto.
+    + unfold slot_rejects in Esr. destruct (inv_all_in_list _ _ HI old Hold) as (L & HL & Hn).
+      rewrite <- Es, HL in Esr. rewrite <- En, Hn in Esr. apply orb_false_iff in Esr. destruct Esr as [E1 E2].
+      apply N.ltb_ge in E1. apply N.ltb_ge in E2. lia.
+  - intros Hin. apply Hne. eapply (same_slot_unique c (fst (pool_add c t v pub ch p))); eauto. apply pool_add_inv; auto.
+Qed.
